@@ -675,8 +675,41 @@ func TestC16Child(t *testing.T) {
 	var texts []string
 	_ = json.Unmarshal(data, &texts)
 	var out []string
+	// the child plays one of the two roles of the kvass binary: before it loads any configuration it constructs what
+	// cmd/kvass/coordinator.go or cmd/kvass/sidecar.go construct (whatever those constructors do to process-wide
+	// state is then part of the process that computes the hash)
+	hashIn := hashOf
+	switch os.Getenv("VERIF_C16_ROLE") {
+	case "coordinator":
+		lg := quiet
+		cm := prom.NewConfigManager()
+		sm := kscrape.New(true, lg)
+		td := discovery.New(lg)
+		_ = coordinator.NewService("", cm, nil, nil, func() map[string][]*discovery.SDTargets { return nil },
+			func() map[string][]*discovery.SDTargets { return nil }, prometheus.NewRegistry(), lg)
+		_, _ = sm, td
+	case "sidecar":
+		dir, _ := ioutil.TempDir("", "c16role-")
+		defer os.RemoveAll(dir)
+		lg := quiet
+		cm := prom.NewConfigManager()
+		tm := sidecar.NewTargetsManager(dir, prometheus.NewRegistry(), lg)
+		sm := kscrape.New(false, lg)
+		_ = sidecar.NewProxy(sm.GetJob, func() map[uint64]*target.ScrapeStatus { return tm.TargetsInfo().Status }, cm.ConfigInfo, prometheus.NewRegistry(), lg)
+		inj := sidecar.NewInjector(dir+"/out.yml", sidecar.InjectConfigOptions{ProxyURL: "http://127.0.0.1:8008", PrometheusURL: "http://127.0.0.1:9090"}, prometheus.NewRegistry(), lg)
+		_ = sidecar.NewService("", "http://127.0.0.1:9090", func() (int64, error) { return 0, nil }, cm, tm, prometheus.NewRegistry(), lg)
+		_ = tm.Load()
+		// the sidecar's own ConfigManager with its callback chain computes the hashes
+		cm.AddReloadCallbacks(sm.ApplyConfig, inj.ApplyConfig)
+		hashIn = func(text string) (string, *config.Config, error) {
+			if err := cm.ReloadFromRaw([]byte(text)); err != nil {
+				return "", nil, err
+			}
+			return cm.ConfigInfo().ConfigHash, cm.ConfigInfo().Config, nil
+		}
+	}
 	for _, txt := range texts {
-		h, _, err := hashOf(txt)
+		h, _, err := hashIn(txt)
 		if err != nil {
 			h = "ERR"
 		}
@@ -705,9 +738,9 @@ func TestC16Process(t *testing.T) {
 	b, _ := json.Marshal(texts)
 	f := dir + "/texts.json"
 	_ = ioutil.WriteFile(f, b, 0644)
-	for k := 0; k < 3; k++ {
+	for k, role := range []string{"", "coordinator", "sidecar"} {
 		cmd := exec.Command(os.Args[0], "-test.run", "^TestC16Child$", "-test.count", "1")
-		cmd.Env = append(os.Environ(), "VERIF_C16_TEXTS="+f, "VERIF_PARTIAL=", "VERIF_VIOL_OUT=")
+		cmd.Env = append(os.Environ(), "VERIF_C16_TEXTS="+f, "VERIF_PARTIAL=", "VERIF_VIOL_OUT=", "VERIF_C16_ROLE="+role)
 		out, err := cmd.Output()
 		if err != nil {
 			t.Fatalf("child failed: %v %s", err, out)
@@ -722,9 +755,9 @@ func TestC16Process(t *testing.T) {
 			t.Fatalf("child %d returned %d hashes for %d texts", k, len(got), len(hashes))
 		}
 		for i := range got {
-			rec.Eval(true, vkit.Digest("proc", texts[i]), "fresh-process-hash")
+			rec.Eval(true, vkit.Digest("proc", texts[i]), "fresh-process-hash/role="+role)
 			if got[i] != hashes[i] {
-				v := []vkit.Violation{{Key: "C16/hash-differs-across-processes", Msg: fmt.Sprintf("process %d computes %s, this process %s for\n%s", k, got[i], hashes[i], texts[i])}}
+				v := []vkit.Violation{{Key: "C16/hash-differs-across-processes", Msg: fmt.Sprintf("process %d (role %q) computes %s, this process %s for\n%s", k, role, got[i], hashes[i], texts[i])}}
 				if bad := rec.Filter(v); len(bad) > 0 {
 					p := vkit.SaveViolation("C16", "TestC16Process", map[string]string{"text": texts[i]}, bad, nil)
 					t.Fatalf("%s (replay %s)", bad[0], p)
